@@ -174,6 +174,8 @@ def build(r, factors, how):
             x = Scalar(c, 2.0, u)
         elif how == "Array":
             x = Array(c, r.choice([[2.0, 3.0], (2.0, 3.0), np.array([2.0, 3.0]), [], (), np.array([])]), u)  # (an Array without values has its unit all the same)
+        elif how == "Quantity(constructor)":
+            x = Quantity(c, u)  # (an object of its own, not the interned one - and gone as soon as the product is built)
         else:
             x = ObtainQuantity(u, c)
         k = abs(e)
@@ -184,7 +186,7 @@ def build(r, factors, how):
         else:
             p = x**k if k > 1 or r.random() < 0.3 else x
         if acc is None:
-            acc = p if e > 0 else (1.0 / p if how != "Quantity" else None)
+            acc = p if e > 0 else (1.0 / p if not how.startswith("Quantity") else None)
             if acc is None:
                 # Quantity has no number / Quantity: start from a product and divide it out again
                 acc = (p * p) / p / p / p
@@ -212,7 +214,7 @@ def derived(ctx, db, B, r, n):
     seen_names = {}
     for i in range(n):
         factors = gen_factors(r, B, qts)
-        how = r.choice(["Scalar", "Scalar", "Scalar", "Array", "Quantity", "CreateDerived", "ObtainQuantity(dict)", "ObtainQuantity(list)"])
+        how = r.choice(["Scalar", "Scalar", "Scalar", "Array", "Quantity", "Quantity(constructor)", "CreateDerived", "ObtainQuantity(dict)", "ObtainQuantity(list)"])
         case = {"factors": [list(f) for f in factors], "route": how}
         try:
             o = build(r, factors, how)
@@ -224,7 +226,7 @@ def derived(ctx, db, B, r, n):
         # the quantity is the one the request names: every category at the exponent the factors add up to (what the strings are
         # compared with below is the quantity's own composing map - which must itself be the map that was asked for)
         power = 1
-        if how in ("Scalar", "Quantity") and i % 3 == 0:
+        if how in ("Scalar", "Quantity", "Quantity(constructor)") and i % 3 == 0:
             # ... also after the whole amount is raised to a power: every exponent is multiplied
             power = 2 + i % 2
             try:
